@@ -195,6 +195,12 @@ def ops_moments(rng):
     w = values(rng, len(b) if rng.random() < 0.9 else length(rng), "pos")
     o.append("corw %s %s ; %s ; %s" % (flag(rng), vec(a), vec(b), vec(w)))
     o.append("shannon %s ; %s" % (hx(rng.choice([2.7182818, 2.0, 10.0])), vec(one(rng, ["prob", "unit", "pos"]))))
+    o.append("shannondisc %s ; %s" % (hx(rng.choice([2.7182818, 2.0, 10.0])), vec(one(rng, ["tiny", "tiny", "ints"]))))
+    k = rng.choice(["tiny", "tiny", "ints"])
+    a, b = pair(rng, [k])
+    if rng.random() < 0.3 and len(a) == len(b):     # dependent samples
+        b = [x * x for x in a]
+    o.append("midisc %s ; %s ; %s" % (hx(rng.choice([2.7182818, 2.0, 10.0])), vec(a), vec(b)))
     # seq: from/to on a grid, and arbitrary reals
     by = rng.choice([1.0, 0.5, 0.25, 2.0, 3.0, 0.1])
     f = rng.randint(-20, 20) * by
@@ -213,7 +219,7 @@ def ops_sets(rng):
     v = one(rng, ks)
     o.append("contains %s ; %s" % (hx(rng.choice(v + [99.0])), vec(v)))
     o.append("which %s ; %s" % (hx(rng.choice(v + [99.0])), vec(v)))
-    for name in ("union", "inter", "diff", "havesame"):
+    for name in ("union", "inter", "diff", "havesame", "containsall"):
         k = rng.choice(ks)
         a = values(rng, length(rng), k)
         b = values(rng, length(rng), k)
@@ -223,6 +229,10 @@ def ops_sets(rng):
         elif r < 0.2:
             b = list(a)
             rng.shuffle(b)
+        elif r < 0.35 and a:
+            b = [rng.choice(a) for _ in range(rng.randint(0, len(a)))]    # a sub-multiset
+        elif r < 0.4:
+            a = []
         o.append("%s %s ; %s" % (name, vec(a), vec(b)))
     return o
 
